@@ -32,5 +32,24 @@ MCInit ==
                    enc |-> "nat", shape |-> <<1, Z, Y, X>>, data |-> d]
 MCSpec == MCInit /\ [][DNext]_dvars
 
+(* NON-INTEGER outside value on integer data (--outside-value is a float): the *)
+(* case is in units of 1/2 (u = 1): data 2v for v in V, outside values 1/2,    *)
+(* 3/2 and M - 1/2.  The design pads the WORK array (float64) with the value   *)
+(* itself; the oracle is BlockMean in units of 2^-u.  Same shapes and factors. *)
+PadsU == {<<"const", 1>>, <<"const", 3>>, <<"const", 2 * M - 1>>}
+MCInitU ==
+  \E Z \in 1..3, Y \in 1..3, X \in 1..3 :
+    /\ Z * Y * X <= MaxVox
+    /\ \E fx \in {1, 2}, fy \in {1, 2}, fz \in {1, 2}, pd \in PadsU,
+          d \in [1..(Z * Y * X) -> {2 * v : v \in V}] :
+         cfg = [method |-> "average", f |-> <<fx, fy, fz>>, pad |-> pd[1], ov |-> pd[2], kind |-> "int",
+                enc |-> "nat", shape |-> <<1, Z, Y, X>>, data |-> d, u |-> 1]
+MCSpecU == MCInitU /\ [][DNext]_dvars
+\* must-fail (deviation): a design that pads the INTEGER array before the promotion to
+\* the work type casts the outside value to the data type (floor) - seeded change C06_r8m2
+DesignCastAgrees ==
+  LET d == PairwiseHalfSum([cfg EXCEPT !.ov = 2 * (cfg.ov \div 2)])
+  IN \A p \in DOMAIN d[1] : <<0, FromNat(d[1][p])>> = BlockMean(cfg, p)
+
 Design == cfg.method = "average" => DesignAgrees
 =============================================================================
